@@ -164,9 +164,11 @@ func genCase(seed int64, idx int) Case {
 			"{" + rep(",") + "int}", "{int" + rep("#\n") + "}", rep("fragment F on Query{int}"), rep("query{int}"), rep("query Q{int}"),
 			func() string { // fragment chain, each reached once
 				var sb strings.Builder
+				// validating a chain of n fragments is polynomial but steep (n=2000: ~10 s; cycle search and
+				// field collection are both quadratic) — C12's business; keep it clear of the stall limit
 				n := d
-				if n > 3000 {
-					n = 3000
+				if n > 800 {
+					n = 800
 				}
 				sb.WriteString("{...F0}")
 				for i := 0; i < n; i++ {
